@@ -27,3 +27,8 @@ From RV Require Import Btree.Tree Btree.Read Btree.Mutator.
 Definition m_insert := @Mutator.insert key bytes key_cmp key_size val_size.
 Definition m_delete := @Mutator.delete key bytes key_cmp key_size val_size.
 Definition m_tree_checkb := @tree_checkb key bytes key_cmp.
+
+From RV Require Import Btree.Guard.
+(* the value insert_reserve stores before the caller writes: value_length zero bytes (<&[u8]>::initialize is a no-op) *)
+Definition blank_bytes (v : bytes) : bytes := List.map (fun _ => 0%N) v.
+Definition m_apply_gop := @Guard.apply_gop key bytes key_cmp key_size val_size.
